@@ -12,6 +12,7 @@ seed, padding, write sequence and every segmentation of the byte stream.
 * `keys_agree`            initiator tx = responder rx and vice versa, as functions of the two seeds
 * `stream_roundtrip`      any write sequence, any re-segmentation, any read sizes: delivered = written
 * `stream_roundtrip_both` … in both directions after `kdf`
+* `tail_with_error_delivered` a final chunk handed out together with an error is decrypted and delivered
 * `rejects_bad_magic`, `rejects_big_padlen`, `accepts_iff`   the header decision
 * `handshake_any_chunking` a well-formed peer handshake completes for every segmentation, consuming
                            exactly `seedLen + hsLen + padLen` bytes and leaving the rest queued
@@ -98,6 +99,27 @@ theorem stream_roundtrip (P : Prims) (ks) (hL : P.sxor.Law ks) (a b : Conn) (hk 
   simp only [List.flatten_nil, xorAt, List.append_nil] at r1
   refine ⟨r1.symm, ?_⟩
   rw [w2, r2, hk, ← r1]
+
+/-- **End of stream: bytes returned together with an error are delivered.** The wire reaches `b`
+as `q` followed by a final chunk `last` that the underlying conn hands out *in the same call as an
+error* (`n > 0, err ≠ nil`, e.g. the last segment with `io.EOF`). After any `Read`s that drained
+`q`, the `Read` that meets `last` returns its decryption along with the error: everything the peer
+wrote has been delivered when the error is reported. -/
+theorem tail_with_error_delivered (P : Prims) (ks) (hL : P.sxor.Law ks) (a b : Conn) (hk : a.tx = b.rx)
+    (ws : List Bytes) (q : Net) (last : Bytes) (hq : q.flatten ++ last = (writeAll P a ws).2.flatten)
+    (outs : List Bytes) (b' : Conn) (hr : Reads P b q outs b' []) :
+    outs.flatten ++ (readLast P b' last).2 = ws.flatten := by
+  obtain ⟨w1, _⟩ := writeAll_spec P hL a ws
+  obtain ⟨r1, r2⟩ := reads_spec P hL hr
+  simp only [List.flatten_nil, xorAt, List.append_nil] at r1
+  have hlen : outs.flatten.length = q.flatten.length := by rw [← r1, xorAt_length]
+  have h3 : (readLast P b' last).2 = xorAt (ks b.rx.key b.rx.iv) (b.rx.off + q.flatten.length) last := by
+    simp only [readLast, Stream.xor]
+    rw [hL, r2]
+    simp [hlen]
+  have h4 : ws.flatten = xorAt (ks b.rx.key b.rx.iv) b.rx.off (q.flatten ++ last) := by
+    rw [hq, w1, hk, xorAt_xorAt]
+  rw [h4, xorAt_append, h3, r1]
 
 /-- the wire carries exactly as many bytes as were written (no framing, no expansion) -/
 theorem wire_length (P : Prims) (ks) (hL : P.sxor.Law ks) (a : Conn) (ws : List Bytes) :
